@@ -74,6 +74,18 @@ fn make_bundle(j: usize) -> FluentBundleResult<FluentResource> {
     }
     // present in every bundle, attributes only (no value): answers a messages request at once, never a value request
     src.push_str("ao =\n    .a = x\n");
+    if j % 3 == 1 {
+        // every third bundle is PARTLY BROKEN: a junk line in its source, delivered as Err((usable bundle, errors)) -
+        // it answers like any other bundle, and its errors are reported to every request that passes it
+        src.push_str("junk line {\n");
+        let (res, errs) = match FluentResource::try_new(src) {
+            Ok(r) => (r, vec![]),
+            Err((r, e)) => (r, e),
+        };
+        bundle.add_resource(res).expect("add_resource");
+        let errs: Vec<fluent_bundle::FluentError> = errs.into_iter().map(fluent_bundle::FluentError::from).collect();
+        return if errs.is_empty() { Ok(bundle) } else { Err((bundle, errs)) };
+    }
     let res = FluentResource::try_new(src).expect("resource");
     bundle.add_resource(res).expect("add_resource");
     Ok(bundle)
@@ -258,6 +270,8 @@ fn show_done(api: char, d: usize, out: &Out) -> String {
                 }
             }
             LocalizationError::MissingMessage { locale: None, .. } => {}
+            // a partly broken bundle (every third one) reports its parser errors to every request that passes it
+            LocalizationError::Bundle { .. } => {}
             // api `e`: the answering bundle reports the unknown variable; that is part of the answer
             LocalizationError::Resolver { .. } if api == 'e' => {}
             other => extra.push_str(&format!("~unexpected-error:{:?}", other).replace([';', ' '], "_")),
